@@ -12,5 +12,12 @@ for l in lines:
     patch=subprocess.run(['git','-C','/repo','show','-R','--format=',sha],capture_output=True,text=True).stdout
     fn=f'drills/revert-{prop}-{sha}.patch'
     open('/verif/'+fn,'w').write(patch); rows.append((fn,prop))
+re_as={}
+try:
+    for l in open('/verif/drills/reassign.txt'):
+        if l.startswith('#') or not l.strip(): continue
+        f,pr=l.split()[:2]; re_as[f]=pr
+except FileNotFoundError: pass
+rows=[(f,re_as.get(f,p)) for f,p in rows]
 open('/verif/drills/reverts.txt','w').write(''.join(f'{f} {p}\n' for f,p in rows))
 print(len(rows),'revert drills')
